@@ -324,40 +324,327 @@ theorem obtainU_good (u : Sym) : Good lg (fun s => obtainU lg s u) (fun r => obt
                 · rw [he.2.1] at hk
                   exact hs.2 k q' hk
 
-/-- sequencing of good blocks -/
-theorem good_bind {α β : Type} {B1 : CState → CState × Except ErrKind α} {p1 : Registry → Except ErrKind α}
-    {B2 : α → CState → CState × Except ErrKind β} {p2 : α → Registry → Except ErrKind β}
-    (h1 : Good lg B1 p1) (h2 : ∀ a, Good lg (B2 a) (p2 a)) :
-    Good lg (fun s => match (B1 s).2 with
-                      | .error e => ((B1 s).1, .error e)
-                      | .ok a => B2 a (B1 s).1)
-      (fun r => match p1 r with
-                | .error e => .error e
-                | .ok a => p2 a r) := by
+/-- the two copies of `Sum`, as a function of the registry -/
+def copiesPure (r : Registry) (c1 v1 c2 v2 : Sym) : Except ErrKind Unit :=
+  match newQuantityPure lg r c1 v1 with
+  | .error e => .error e
+  | .ok _ =>
+    match newQuantityPure lg r c2 v2 with
+    | .error e => .error e
+    | .ok _ => .ok ()
+
+theorem copies_good (c1 v1 c2 v2 : Sym) :
+    Good lg (fun s => copies lg s c1 v1 c2 v2) (fun r => copiesPure lg r c1 v1 c2 v2) := by
   intro s hs hn
-  obtain ⟨v1, i1, r1⟩ := h1 s hs hn
-  simp only
-  rw [v1]
-  cases hp : p1 s.reg with
+  obtain ⟨w1, i1, r1⟩ := obtain_good lg true c1 v1 s hs hn
+  simp only at w1 i1 r1 ⊢
+  unfold copies copiesPure
+  rw [w1]
+  cases newQuantityPure lg s.reg c1 v1 with
   | error e => exact ⟨rfl, i1, r1⟩
   | ok a =>
     simp only
-    obtain ⟨v2, i2, r2⟩ := h2 a (B1 s).1 i1 (by rw [r1]; exact hn)
-    rw [r1] at v2
-    exact ⟨v2, i2, r2.trans r1⟩
+    obtain ⟨w2, i2, r2⟩ := obtain_good lg true c2 v2 _ i1 (by rw [r1]; exact hn)
+    simp only at w2 i2 r2
+    rw [w2, r1]
+    exact ⟨rfl, i2, r2.trans r1⟩
 
-/-- a block that does not touch the state -/
-theorem good_pure {α : Type} (f : Registry → Except ErrKind α) : Good lg (fun s => (s, f s.reg)) f :=
-  fun _ hs _ => ⟨rfl, hs, rfl⟩
+/-- `Sum` on two simple operands, as a function of the registry -/
+def sumSimplePure (r : Registry) (a b : QObj) (x y : Rat) : Except ErrKind (Sym × Sym × Rat) :=
+  if a.cat = b.cat ∧ a.unit = b.unit then .ok (a.cat, a.unit, x + y)
+  else
+    match getCategoryInfo r a.cat with
+    | .error e => .error e
+    | .ok ca =>
+      match getCategoryInfo r b.cat with
+      | .error e => .error e
+      | .ok cb =>
+        if ca.qtype = cb.qtype then
+          match convert lg r ca.qtype b.unit a.unit y with
+          | .error e => .error e
+          | .ok y' =>
+            match copiesPure lg r a.cat a.unit b.cat a.unit with
+            | .error e => .error e
+            | .ok _ => .ok (a.cat, a.unit, x + y')
+        else
+          match copiesPure lg r a.cat a.unit b.cat b.unit with
+          | .error e => .error e
+          | .ok _ => if a.unit = b.unit then .ok (a.cat, a.unit, x + y) else .error .units
 
-/-- post-processing of the result with a function of the registry -/
-theorem good_map {α β : Type} {B : CState → CState × Except ErrKind α} {p : Registry → Except ErrKind α}
-    (h : Good lg B p) (f : Registry → Except ErrKind α → Except ErrKind β) :
-    Good lg (fun s => ((B s).1, f s.reg (B s).2)) (fun r => f r (p r)) := by
+theorem sumSimple_good (a b : QObj) (x y : Rat) :
+    Good lg (fun s => sumSimple lg s a b x y) (fun r => sumSimplePure lg r a b x y) := by
   intro s hs hn
-  obtain ⟨v, i, r⟩ := h s hs hn
   simp only
-  rw [v]
-  exact ⟨rfl, i, r⟩
+  unfold sumSimple sumSimplePure
+  split
+  · exact ⟨rfl, hs, rfl⟩
+  · cases getCategoryInfo s.reg a.cat with
+    | error e => exact ⟨rfl, hs, rfl⟩
+    | ok ca =>
+      simp only
+      cases getCategoryInfo s.reg b.cat with
+      | error e => exact ⟨rfl, hs, rfl⟩
+      | ok cb =>
+        simp only
+        split
+        · cases convert lg s.reg ca.qtype b.unit a.unit y with
+          | error e => exact ⟨rfl, hs, rfl⟩
+          | ok y' =>
+            simp only
+            obtain ⟨v, i, r⟩ := copies_good lg a.cat a.unit b.cat a.unit s hs hn
+            simp only at v i r
+            rw [v]
+            exact ⟨rfl, i, r⟩
+        · obtain ⟨v, i, r⟩ := copies_good lg a.cat a.unit b.cat b.unit s hs hn
+          simp only at v i r
+          rw [v]
+          exact ⟨rfl, i, r⟩
+
+/-- **every query refines its cache-free meaning**: in a state that satisfies the cache invariant
+its answer is the answer on a freshly built database over the same registry, it keeps the cache
+invariant, and it does not change the registry -/
+theorem answer_refines (q : Query) {s : CState} (hs : SInv lg s) (hn : NoLegacySyms lg s.reg) :
+    (answer lg s q).2 = spec lg s.reg q ∧ SInv lg (answer lg s q).1 ∧ (answer lg s q).1.reg = s.reg := by
+  have hf := sinv_fresh lg s.reg
+  have hnf : NoLegacySyms lg (CState.fresh s.reg).reg := hn
+  unfold spec
+  cases q with
+  | check c u =>
+    simp only [answer]
+    rw [check_val lg hs.1, check_val lg hf.1]
+    exact ⟨rfl, ext_sinv lg (check_ext lg s c u) hs, (check_ext lg s c u).1⟩
+  | create c u =>
+    obtain ⟨v, i, r⟩ := obtain_good lg false c u s hs hn
+    obtain ⟨v0, _, _⟩ := obtain_good lg false c u _ hf hnf
+    simp only [answer]
+    simp only at v v0 i r
+    rw [v, v0]
+    exact ⟨rfl, i, r⟩
+  | createU u =>
+    obtain ⟨v, i, r⟩ := obtainU_good lg u s hs hn
+    obtain ⟨v0, _, _⟩ := obtainU_good lg u _ hf hnf
+    simp only [answer]
+    simp only at v v0 i r
+    rw [v, v0]
+    exact ⟨rfl, i, r⟩
+  | createC c =>
+    simp only [answer]
+    show _ ∧ _ ∧ _
+    cases hg : getCategoryInfo s.reg c with
+    | error e =>
+      have : getCategoryInfo (CState.fresh s.reg).reg c = .error e := hg
+      rw [this]
+      exact ⟨rfl, hs, rfl⟩
+    | ok ci =>
+      have : getCategoryInfo (CState.fresh s.reg).reg c = .ok ci := hg
+      rw [this]
+      obtain ⟨v, i, r⟩ := obtain_good lg false c ci.defaultUnit s hs hn
+      obtain ⟨v0, _, _⟩ := obtain_good lg false c ci.defaultUnit _ hf hnf
+      simp only at v v0 i r ⊢
+      rw [v, v0]
+      exact ⟨rfl, i, r⟩
+  | convert cq u v x => exact ⟨rfl, hs, rfl⟩
+  | objValidUnits c u =>
+    obtain ⟨v, i, r⟩ := obtain_good lg false c u s hs hn
+    obtain ⟨v0, _, _⟩ := obtain_good lg false c u _ hf hnf
+    simp only [answer]
+    simp only at v v0 i r
+    rw [v, v0]
+    exact ⟨rfl, i, r⟩
+  | isValid c u x =>
+    obtain ⟨v, i, r⟩ := obtain_good lg false c u s hs hn
+    obtain ⟨v0, _, _⟩ := obtain_good lg false c u _ hf hnf
+    simp only [answer]
+    simp only at v v0 i r
+    rw [v, v0]
+    exact ⟨rfl, i, r⟩
+  | add c1 u1 c2 u2 x y =>
+    obtain ⟨v, i, r⟩ := obtain_good lg false c1 u1 s hs hn
+    obtain ⟨v0, i0, r0⟩ := obtain_good lg false c1 u1 _ hf hnf
+    simp only [answer]
+    simp only at v v0 i r i0 r0
+    have r0' : (obtain lg (CState.fresh s.reg) false c1 u1).1.reg = s.reg := r0
+    have v0' : (obtain lg (CState.fresh s.reg) false c1 u1).2 = newQuantityPure lg s.reg c1 u1 := v0
+    rw [v, v0']
+    cases newQuantityPure lg s.reg c1 u1 with
+    | error e => exact ⟨rfl, i, r⟩
+    | ok a =>
+      simp only
+      obtain ⟨w, j, t⟩ := obtain_good lg false c2 u2 _ i (by rw [r]; exact hn)
+      obtain ⟨w0, j0, t0⟩ := obtain_good lg false c2 u2 _ i0 (by rw [r0']; exact hn)
+      simp only at w w0 j t j0 t0
+      rw [r] at w
+      rw [r0'] at w0
+      rw [w, w0]
+      cases newQuantityPure lg s.reg c2 u2 with
+      | error e => exact ⟨rfl, j, t.trans r⟩
+      | ok b =>
+        simp only
+        obtain ⟨z, k, m⟩ := sumSimple_good lg a b x y _ j (by rw [t, r]; exact hn)
+        obtain ⟨z0, _, _⟩ := sumSimple_good lg a b x y _ j0 (by rw [t0, r0']; exact hn)
+        simp only at z z0 k m
+        rw [t, r] at z
+        rw [t0, r0'] at z0
+        rw [z, z0]
+        exact ⟨rfl, k, (m.trans t).trans r⟩
+  | validUnits c => exact ⟨rfl, hs, rfl⟩
+  | baseUnit qt => exact ⟨rfl, hs, rfl⟩
+  | units qt => exact ⟨rfl, hs, rfl⟩
+  | defaultCategory u => exact ⟨rfl, hs, rfl⟩
+  | quantityType u => exact ⟨rfl, hs, rfl⟩
+  | catInfo c => exact ⟨rfl, hs, rfl⟩
+
+/-! ### queries never touch the registry (no hypothesis at all) -/
+
+theorem obtain_reg (s : CState) (cap : Bool) (c u : Sym) : (obtain lg s cap c u).1.reg = s.reg := by
+  unfold obtain
+  split
+  · rfl
+  · split
+    · rfl
+    · exact (newQuantity_ext lg s c u).1
+
+theorem obtainU_reg (s : CState) (u : Sym) : (obtainU lg s u).1.reg = s.reg := by
+  unfold obtainU
+  split
+  · rfl
+  · split
+    · rfl
+    · split
+      · rfl
+      · split
+        · rfl
+        · split
+          · rfl
+          · exact (newQuantity_ext lg s _ _).1
+
+theorem copies_reg (s : CState) (c1 v1 c2 v2 : Sym) : (copies lg s c1 v1 c2 v2).1.reg = s.reg := by
+  unfold copies
+  split
+  · exact obtain_reg lg s true c1 v1
+  · exact (obtain_reg lg _ true c2 v2).trans (obtain_reg lg s true c1 v1)
+
+theorem sumSimple_reg (s : CState) (a b : QObj) (x y : Rat) : (sumSimple lg s a b x y).1.reg = s.reg := by
+  unfold sumSimple
+  split
+  · rfl
+  · split
+    · rfl
+    · split
+      · rfl
+      · split
+        · split
+          · rfl
+          · exact copies_reg lg s _ _ _ _
+        · exact copies_reg lg s _ _ _ _
+
+theorem answer_reg (s : CState) (q : Query) : (answer lg s q).1.reg = s.reg := by
+  cases q with
+  | check c u => exact (check_ext lg s c u).1
+  | create c u => exact obtain_reg lg s false c u
+  | createU u => exact obtainU_reg lg s u
+  | createC c =>
+    simp only [answer]
+    split
+    · rfl
+    · exact obtain_reg lg s false c _
+  | convert cq u v x => rfl
+  | objValidUnits c u => exact obtain_reg lg s false c u
+  | isValid c u x => exact obtain_reg lg s false c u
+  | add c1 u1 c2 u2 x y =>
+    simp only [answer]
+    split
+    · exact obtain_reg lg s false c1 u1
+    · split
+      · exact (obtain_reg lg _ false c2 u2).trans (obtain_reg lg s false c1 u1)
+      · exact ((sumSimple_reg lg _ _ _ x y).trans (obtain_reg lg _ false c2 u2)).trans (obtain_reg lg s false c1 u1)
+  | validUnits c => rfl
+  | baseUnit qt => rfl
+  | units qt => rfl
+  | defaultCategory u => rfl
+  | quantityType u => rfl
+  | catInfo c => rfl
+
+/-! ### registrations whose unit symbols are not legacy spellings keep `NoLegacySyms` -/
+
+/-- the registration does not register a unit under a legacy spelling -/
+def regClean : RegOp → Bool
+  | .addUnitBase _ _ (.str u) => !isLegacy lg u
+  | .addUnit _ _ (.str u) _ _ _ => !isLegacy lg u
+  | _ => true
+
+theorem noLegacy_append {r : Registry} (h : NoLegacySyms lg r) {u : Sym} (info : UnitRow)
+    (hu : isLegacy lg u = false) {ts : List (Sym × List UnitRow)} {cs : List CatRow} :
+    NoLegacySyms lg ⟨ts, r.index ++ [(u, info)], cs⟩ := by
+  intro v w hv
+  simp only at hv
+  rw [ixGet_append] at hv
+  cases ho : ixGet r.index v with
+  | some x => exact h v x ho
+  | none =>
+    rw [ho] at hv
+    simp only at hv
+    split at hv
+    · rename_i huv; subst huv; exact hu
+    · cases hv
+
+theorem step_noLegacy {r : Registry} (hr : RegInv r) (h : NoLegacySyms lg r) {op : RegOp}
+    (hc : regClean lg op = true) : NoLegacySyms lg (step lg r op).1 := by
+  cases op with
+  | addUnitBase qt name unit =>
+    have : (addUnitBase r qt name unit).1 = (step lg r (.addUnitBase qt name unit)).1 := by
+      simp only [step]; cases addUnitBase r qt name unit with | mk r1 o => cases o <;> rfl
+    rw [← this]
+    unfold addUnitBase
+    rcases addInfo_spec hr qt unit (baseInfo name) with ⟨e, he⟩ | ⟨q, u, info, hqt, hun, _, _, he⟩
+    · rw [he]; exact h
+    · rw [he, hqt]
+      subst hun
+      simp only [regClean, Bool.not_eq_true'] at hc
+      exact noLegacy_append lg h info hc
+  | addUnit qt name unit fb tb dc =>
+    have : (addUnit r qt name unit fb tb dc).1 = (step lg r (.addUnit qt name unit fb tb dc)).1 := by
+      simp only [step]; cases addUnit r qt name unit fb tb dc with | mk r1 o => cases o <;> rfl
+    rw [← this]
+    unfold addUnit
+    rcases addInfo_spec hr qt unit (mkInfo fb tb dc name) with ⟨e, he⟩ | ⟨q, u, info, _, hun, _, _, he⟩
+    · rw [he]; exact h
+    · rw [he]
+      subst hun
+      simp only [regClean, Bool.not_eq_true'] at hc
+      exact noLegacy_append lg h info hc
+  | addCategory a =>
+    have : (addCategory lg r a).1 = (step lg r (.addCategory a)).1 := by
+      simp only [step]; cases addCategory lg r a with | mk r1 o => cases o <;> rfl
+    rw [← this]
+    rcases addCategory_spec lg r a with ⟨e, he⟩ | ⟨c, info, _, _, _, he⟩
+    · rw [he]; exact h
+    · rw [he]; exact h
+
+/-! ### sessions -/
+
+/-- the invariant of a session: well-formed registry, memo tables that agree with it, no unit
+registered under a legacy spelling -/
+def Inv (s : CState) : Prop := RegInv s.reg ∧ SInv lg s ∧ NoLegacySyms lg s.reg
+
+theorem inv_fresh_empty : Inv lg (CState.fresh Registry.empty) :=
+  ⟨regInv_empty, sinv_fresh lg _, fun u w h => by simp [CState.fresh, Registry.empty, ixGet] at h⟩
+
+/-- the step does not register a unit under a legacy spelling -/
+def opClean : COp → Bool
+  | .reg op => regClean lg op
+  | .query _ => true
+
+/-- the outcomes of a history when every step is asked on a database freshly built from the
+registrations made so far -/
+def freshOutputs (r : Registry) : List COp → List (Except ErrKind COut)
+  | [] => []
+  | .reg op :: ops => exMap COut.reg (step lg r op).2 :: freshOutputs (step lg r op).1 ops
+  | .query q :: ops => exMap COut.ans (spec lg r q) :: freshOutputs r ops
+
+theorem cstep_reg_out (s : CState) (op : RegOp) :
+    (cstep lg s (.reg op)).2 = exMap COut.reg (step lg s.reg op).2 ∧ (cstep lg s (.reg op)).1.reg = (step lg s.reg op).1 := by
+  simp only [cstep]
+  cases (step lg s.reg op).2 <;> exact ⟨rfl, rfl⟩
 
 end Barril.Reg
